@@ -1,4 +1,4 @@
-// ---- specs/common_cipher.rs : assumed contract of codec/aead.rs CipherMethod::new (shared by the Shadowsocks and VMess units) ----
+// ---- specs/common_cipher.rs : what codec/aead.rs CipherMethod::new must select per cipher name (README table: algorithm and key size) (shared by the Shadowsocks and VMess units) ----
 spec fn alg_of(kind: CipherKind) -> int {
     match kind {
         CipherKind::Aes128Gcm | CipherKind::Aead2022Blake3Aes128Gcm => 0,
@@ -10,12 +10,4 @@ spec fn alg_of(kind: CipherKind) -> int {
 }
 spec fn key_len_of(kind: CipherKind) -> nat {
     match kind { CipherKind::Aes128Gcm | CipherKind::Aead2022Blake3Aes128Gcm => 16, _ => 32 }
-}
-/// codec/aead.rs CipherMethod::new (RustCrypto constructors): slices the key to the algorithm's key size (panics if shorter), panics on Unknown
-impl CipherMethod {
-    #[verifier::external_body]
-    fn new(kind: CipherKind, key: &[u8]) -> (r: CipherMethod)
-        requires !(kind is Unknown), key@.len() >= key_len_of(kind)
-        ensures r.alg() == alg_of(kind), r.key() == key@.take(key_len_of(kind) as int)
-    { unimplemented!() }
 }
